@@ -8,7 +8,7 @@ Open Scope N_scope.
 Definition ws_ok (ws : N -> bool) : bool :=
   ws 10 && ws 13 && ws 32 && negb (ws 92) && negb (ws 123) && negb (ws 125).
 
-Definition one_ws (ws : N -> bool) (x : str) : bool := match x with [c] => ws c | _ => false end.
+Definition one_ws (ws : N -> bool) (x : str) : bool := match x with [c] => ws c && negb (is_surr c) | _ => false end.
 
 Definition tables_ok (T : tables) (ws : N -> bool) : bool :=
   forallb (fun kw => forallb is_alpha kw && (List.length kw <=? 28)%nat) (SKIP T) &&
@@ -192,7 +192,7 @@ Section Loop.
   Lemma tok_char_facts c : tok_char ws c = true ->
     (c =? 123) = false /\ (c =? 125) = false /\ (c =? 92) = false /\ (c =? 13) = false /\ ws c = false.
   Proof.
-    unfold tok_char, is_special. intro H. apply andb_true_iff in H as [H1 H2].
+    unfold tok_char, is_special. intro H. apply andb_true_iff in H as [H _]. apply andb_true_iff in H as [H1 H2].
     apply negb_true_iff in H1. destruct ws_facts as [_ [H13 _]].
     assert ((c =? 13) = false) by (apply N.eqb_neq; intro; subst; congruence). lia.
   Qed.
@@ -431,7 +431,15 @@ Section Loop.
   Proof.
     intro Hin. unfold tables_ok in HT. repeat (apply andb_true_iff in HT as [HT ?]).
     rewrite forallb_forall in H1. specialize (H1 w Hin). unfold one_ws in H1.
-    destruct (ctrl_out T w) as [|c [|? ?]]; try discriminate. exists c. auto.
+    destruct (ctrl_out T w) as [|c [|? ?]]; try discriminate. apply andb_true_iff in H1 as [A _]. exists c. auto.
+  Qed.
+
+  Lemma boundary_nosurr w : In w boundary_words -> exists c, ctrl_out T w = [c] /\ is_surr c = false.
+  Proof.
+    intro Hin. unfold tables_ok in HT. repeat (apply andb_true_iff in HT as [HT ?]).
+    rewrite forallb_forall in H1. specialize (H1 w Hin). unfold one_ws in H1.
+    destruct (ctrl_out T w) as [|c [|? ?]]; try discriminate. apply andb_true_iff in H1 as [_ B].
+    apply negb_true_iff in B. exists c. auto.
   Qed.
 
   Lemma go_boundary w dp r : In w boundary_words -> go T 0 dp None (cw w ++ r) = flat (sep_of T w) ++ go T 0 dp None r.
@@ -511,6 +519,50 @@ Section Loop.
     unfold render_items, doc_syms, flat in *. simpl. rewrite flat_map_app, <- !app_assoc, go_item, IH by assumption. reflexivity.
   Qed.
 
+  (* ---------------------------------------------------------------- no surrogate reaches the result *)
+  Definition nosurr (x : str) : bool := forallb (fun c => negb (is_surr c)) x.
+
+  Lemma repair_id x : nosurr x = true -> repair_surrogates x = x.
+  Proof.
+    induction x as [|c x IH]; intro H; [reflexivity|].
+    simpl in H. apply andb_true_iff in H as [Hc Hx]. apply negb_true_iff in Hc.
+    assert (is_hi c = false /\ is_lo c = false) as [E1 E2] by (unfold is_surr, is_hi, is_lo in *; split; lia).
+    cbn [repair_surrogates]. rewrite E1, E2, IH by exact Hx. reflexivity.
+  Qed.
+
+  Lemma hexval_le c : is_hex c = true -> hexval c <= 15.
+  Proof.
+    unfold is_hex, hexval. intro H. destruct (is_digit c) eqn:D; [unfold is_digit in D; lia|].
+    destruct (is_lower c) eqn:L; unfold is_digit, is_lower in *; lia.
+  Qed.
+
+  Lemma nosurr_item : forall x, wf_item T ws x = true -> supported_item T x = true -> nosurr (flat (syms T x)) = true.
+  Proof.
+    assert (forall w, In w boundary_words -> nosurr (flat (sep_of T w)) = true) as Hb.
+    { intros w Hin. destruct (boundary_nosurr w Hin) as [c [Ec Hc]]. unfold sep_of. rewrite Ec. simpl. rewrite Hc. reflexivity. }
+    intro x. induction x using item_ind'; intros Hwf Hsup; try reflexivity; try (apply Hb; simpl; tauto).
+    - simpl in Hwf. apply andb_true_iff in Hwf as [_ Ht]. simpl. rewrite app_nil_r.
+      unfold nosurr. apply forallb_forall. intros c Hc. rewrite forallb_forall in Ht. specialize (Ht c Hc).
+      unfold tok_char in Ht. apply andb_true_iff in Ht as [_ Ht]. exact Ht.
+    - simpl in Hsup. apply andb_true_iff in Hsup as [_ Hs]. simpl. unfold is_surr. rewrite Hs. reflexivity.
+    - simpl in Hwf. repeat (apply andb_true_iff in Hwf as [Hwf ?]).
+      pose proof (hexval_le a Hwf) as A. pose proof (hexval_le b H0) as B. simpl. unfold hex_val, is_surr.
+      replace ((55296 <=? 16 * hexval a + hexval b) && (16 * hexval a + hexval b <=? 57343)) with false by lia. reflexivity.
+    - simpl in Hwf, Hsup. apply andb_true_iff in Hsup as [_ Hsup]. simpl.
+      induction H as [|y l Hy _ IH]; [reflexivity|].
+      simpl in Hwf, Hsup. apply andb_true_iff in Hwf as [Hw1 Hw2]. apply andb_true_iff in Hsup as [Hs1 Hs2].
+      simpl. unfold flat, nosurr in *. rewrite flat_map_app, forallb_app, Hy, IH by assumption. reflexivity.
+    - simpl in Hwf. simpl. destruct (special_cases c Hwf) as [-> | [-> | ->]]; reflexivity.
+  Qed.
+
+  Lemma nosurr_doc d : wf_rdoc T ws d = true -> supported_rtf T d = true -> nosurr (flat (doc_syms T d)) = true.
+  Proof.
+    induction d as [|y l IH]; intros Hw Hs; [reflexivity|].
+    simpl in Hw, Hs. apply andb_true_iff in Hw as [Hw1 Hw2]. apply andb_true_iff in Hs as [Hs1 Hs2].
+    pose proof (nosurr_item y Hw1 Hs1) as Hy. unfold doc_syms, flat, nosurr in *. simpl.
+    rewrite flat_map_app, forallb_app, Hy, IH by assumption. reflexivity.
+  Qed.
+
   Lemma go_open dp r : go T 0 dp None (123 :: r) = go T 0 (dp + 1) (if look T r then Some (dp + 1)%Z else None) r.
   Proof. reflexivity. Qed.
 
@@ -524,7 +576,7 @@ Section Loop.
   Lemma strip_rendered d : wf_rdoc T ws d = true -> supported_rtf T d = true ->
     strip_full T (render_rtf d) = flat (doc_syms T d).
   Proof.
-    intros Hw Hs. unfold strip_full, render_rtf.
+    intros Hw Hs. rewrite <- (repair_id _ (nosurr_doc d Hw Hs)) at 1. unfold strip_full, render_rtf. f_equal.
     pose proof HT as HT'. unfold tables_ok in HT'. repeat (apply andb_true_iff in HT' as [HT' ?]).
     apply negb_true_iff in H, H0, H2.
     rewrite prefix_shape, go_open.
